@@ -34,6 +34,7 @@ class Path:
         self.env = {}
         self.value = None
         self.ret_stmt = None
+        self.stores = {}       # local name -> position of its last store
 
     def fork(self):
         p = Path()
@@ -41,7 +42,27 @@ class Path:
         p.fact_pos = list(self.fact_pos)
         p.effects = list(self.effects)
         p.env = dict(self.env)
+        p.stores = dict(self.stores)
         return p
+
+    def contradicts(self, atoms):
+        """one of the new atoms (expr, polarity) is the opposite of a fact
+        already on the path, about plain local names that have not been
+        stored to since (so the branch is infeasible)"""
+        from .model import norm
+        for t, pol in atoms:
+            if not all(isinstance(x, (ast.Name, ast.Constant, ast.Compare,
+                                      ast.cmpop, ast.expr_context,
+                                      ast.UnaryOp, ast.unaryop, ast.Tuple))
+                       for x in ast.walk(t)):
+                continue
+            names = {x.id for x in ast.walk(t) if isinstance(x, ast.Name)}
+            txt = norm(t, 300)
+            for (t0, p0), pos in zip(self.facts, self.fact_pos):
+                if p0 != pol and norm(t0, 300) == txt and \
+                        all(self.stores.get(nm, -1) < pos for nm in names):
+                    return True
+        return False
 
     def resolve(self, expr, depth=0):
         """expr with local names substituted by their definition on this
@@ -162,6 +183,10 @@ def return_paths(func, max_paths=400, inline=True, _depth=0):
             for x in ast.walk(st):
                 if isinstance(x, ast.Name) and isinstance(x.ctx, ast.Store):
                     p.env.pop(x.id, None)
+        for x in ast.walk(st):
+            if isinstance(x, ast.Name) and isinstance(x.ctx, (ast.Store,
+                                                               ast.Del)):
+                p.stores[x.id] = len(p.effects)
 
     def step(st, p):
         if isinstance(st, ast.Return):
@@ -172,13 +197,31 @@ def return_paths(func, max_paths=400, inline=True, _depth=0):
             return []
         if isinstance(st, ast.Raise):
             return []
+        if isinstance(st, (ast.Continue, ast.Break)):
+            # only met when a loop body is analysed as a block: the
+            # iteration ends here
+            p.effects.append(st)
+            p.value = None
+            p.ret_stmt = st
+            done.append(p)
+            return []
         if isinstance(st, ast.If):
             a, b = p, p.fork()
-            for x, fs in ((a, GuardWalker._atoms(st.test, True)),
-                          (b, GuardWalker._atoms(st.test, False))):
-                x.facts += list(fs)
+            live = []
+            for x, fs, blk in ((a, GuardWalker._atoms(st.test, True),
+                                st.body),
+                               (b, GuardWalker._atoms(st.test, False),
+                                st.orelse)):
+                fs = list(fs)
+                if x.contradicts(fs):
+                    continue          # infeasible: opposite of a known fact
+                x.facts += fs
                 x.fact_pos += [len(x.effects)] * len(fs)
-            return run(st.body, [a]) + run(st.orelse, [b])
+                live.append((x, blk))
+            out = []
+            for x, blk in live:
+                out += run(blk, [x])
+            return out
         if isinstance(st, ast.Try):
             outs = run(st.body, [p.fork()])
             if st.orelse:
@@ -196,6 +239,7 @@ def return_paths(func, max_paths=400, inline=True, _depth=0):
             for x in ast.walk(st):
                 if isinstance(x, ast.Name) and isinstance(x.ctx, ast.Store):
                     p.env.pop(x.id, None)
+                    p.stores[x.id] = len(p.effects)
             return [p]
         if isinstance(st, (ast.FunctionDef, ast.AsyncFunctionDef,
                            ast.ClassDef)):
